@@ -1,6 +1,11 @@
-import DclabModel.Model.Filter
+import DclabModel.Model.FilterX
 import DclabModel.DriveUtil
-/-! Line-protocol driver for the filter model (C03); always the current revision (`Ver.f25`).
+/-! Line-protocol driver for the filter model (C03): `stepX` of `Model/FilterX.lean` (all exits of
+`Filter.update`; base revision `Ver.f25`).
+
+    mode pk <0|1>                   which revision of the polygon-axes validation the code under
+                                    test has (`updateX pk`; 0 = as found, 1 = after fix-F73); the
+                                    harness probes the real code and says so → `ok`
 
     new <n>                         fresh dataset with n events (clears columns and tables) → `ok`
     col <f> <v> …                   scalar feature f with its n values → `ok`
@@ -11,7 +16,12 @@ import DclabModel.DriveUtil
     polyaxes <id> <ax> <ay> | polypoints <id> <shape> | polyinv <id> <b> | polyadd <id> |
     polyrm <id> | invalid <b> | enable <b> | limit <k> | manual <i> <b> | reset
                                     → `ok` | `err:key` | `err:value`
+    parent <v>                      `cfg["hierarchy parent"] = <token v>` → `ok`
+    stir <k>                        other code draws from / re-seeds NumPy's global generator
+                                    (`env` of `runAllG` is arbitrary: nothing to do) → `ok`
     apply <f> …                     → `<out> all=<bits> box=<bits> poly=<bits> inv=<bits> ## <spec bits | raise>`
+                                    feature ids >= 100 are names that are no scalar features
+                                    (`known f = f < 100`); `<out>` may be `err:value`, `err:key`
    values: `nan`, `+inf`, `-inf`, `p/q`, `p`
 -/
 open DclabModel.Filter DclabModel.DriveUtil
@@ -21,7 +31,10 @@ structure D where
   data : Data := { n := 0, cols := [] }
   piptab : List ((Nat × Val × Val) × Bool) := []
   tab : List ((Nat × Nat) × List Nat) := []
-  sys : Sys := Sys.init 0
+  sys : SysX := SysX.init 0
+  pk : Bool := false
+
+def known : Feat → Bool := fun f => f < 100
 
 def D.choice (d : D) : List Nat → Nat → List Nat := fun pool k =>
   match d.tab.lookup (pool.length, k) with
@@ -45,23 +58,26 @@ def showOut : Out → String
   | .errKey => "err:key"
   | .unmodelled => "unmodelled"
 
-def doOp (d : D) (op : Op) : D × String :=
-  let r := step .f25 d.choice d.pip d.data d.sys op
+def doOpX (d : D) (op : OpX) : D × String :=
+  let r := stepX d.pk known d.choice d.pip d.data d.sys op
   match op with
-  | .apply _ =>
-    let sp := match specApply d.choice d.pip d.data d.sys.cfg d.sys.reg d.sys.st.manual with
+  | .base (.apply force) =>
+    let sp := match specApplyX known d.choice d.pip d.data d.sys.sys.cfg d.sys.sys.reg
+        d.sys.sys.st.manual force with
       | some m => showBools m
       | none => "raise"
     ({ d with sys := r.1 },
-     showOut r.2 ++ " all=" ++ showBools r.1.st.aAll ++ " box=" ++ showBools r.1.st.aBox ++
-     " poly=" ++ showBools r.1.st.aPoly ++ " inv=" ++ showBools r.1.st.aInv ++
+     showOut r.2 ++ " all=" ++ showBools r.1.sys.st.aAll ++ " box=" ++ showBools r.1.sys.st.aBox ++
+     " poly=" ++ showBools r.1.sys.st.aPoly ++ " inv=" ++ showBools r.1.sys.st.aInv ++
      " ## " ++ sp)
   | _ => ({ d with sys := r.1 }, showOut r.2)
+
+def doOp (d : D) (op : Op) : D × String := doOpX d (.base op)
 
 def handle (d : D) (line : String) : D × String :=
   match words line with
   | ["new", n] => match n.toNat? with
-    | some n => ({ data := { n := n, cols := [] }, sys := Sys.init n }, "ok")
+    | some n => ({ data := { n := n, cols := [] }, sys := SysX.init n, pk := d.pk }, "ok")
     | none => (d, "bad-op")
   | "col" :: f :: vs => match f.toNat?, vs.mapM parseVal? with
     | some f, some vs =>
@@ -110,6 +126,11 @@ def handle (d : D) (line : String) : D × String :=
     | some i => doOp d (.manual i (b == "1"))
     | none => (d, "bad-op")
   | ["reset"] => doOp d .reset
+  | ["mode", "pk", b] => ({ d with pk := b == "1" }, "ok")
+  | ["parent", v] => match v.toNat? with
+    | some v => doOpX d (.setParent v)
+    | none => (d, "bad-op")
+  | ["stir", _] => (d, "ok")
   | "apply" :: fs => match parseNats fs with
     | some fs => doOp d (.apply fs)
     | none => (d, "bad-op")
